@@ -95,6 +95,9 @@ MUTATORS = {
     "C14": [
         ("route forgets exponent", r"quimb/tensor/belief_propagation/\w+\.py$", r"^(\s+)exponent=self\.exponent,\s*$", None),
         ("unit mismatch", r"quimb/tensor/belief_propagation/(l2bp|d1bp|hd1bp)\.py$", r"^(\s+)exponent=self\.exponent( \* 2)?,\s*$", lambda m: m.group(1) + ("exponent=self.exponent," if m.group(2) else "exponent=self.exponent * 2,")),
+        ("right message not transposed (d2bp)", r"quimb/tensor/belief_propagation/d2bp\.py$", r"^(\s+)mr_raw = self\.messages\[ix, tida\]\.T\s*$", r"\1mr_raw = self.messages[ix, tida]"),
+        ("right message not transposed (l2bp)", r"quimb/tensor/belief_propagation/l2bp\.py$", r"^(\s+)mr = ar\.reshape\(tmr\.data, \(dm, dm\)\)\.T\s*$", r"\1mr = ar.reshape(tmr.data, (dm, dm))"),
+        ("left message transposed", r"quimb/tensor/belief_propagation/d2bp\.py$", r"^(\s+)ml_raw = self\.messages\[ix, tidb\]\s*$", r"\1ml_raw = self.messages[ix, tidb].T"),
         ("bp constructor aliases tn", r"quimb/tensor/belief_propagation/bp_common\.py$", r"^(\s+)self\.tn = tn if inplace else tn\.copy\(\)\s*$", r"\1self.tn = tn"),
     ],
     "C16": [
